@@ -113,7 +113,7 @@ class ProbeStep(ProbeMixin, Step):
 
 class TickProcess(Process):
     """adds 1 to ('vars','x') every `ts` time units; used by the shutdown sweep of C13 / C10"""
-    defaults = {'ts': 1, 'var': 'x'}
+    defaults = {'ts': 1, 'var': 'x', 'sleep': 0.0}
 
     def ports_schema(self):
         return {'vars': {self.parameters['var']: {'_default': 0, '_emit': True}}}
@@ -122,6 +122,9 @@ class TickProcess(Process):
         return self.parameters['ts']
 
     def next_update(self, timestep, states):
+        if self.parameters['sleep']:
+            import time
+            time.sleep(self.parameters['sleep'])      # a worker that is still busy when asked to stop
         return {'vars': {self.parameters['var']: 1}}
 
 
